@@ -24,20 +24,30 @@ def check(ctx: Ctx) -> str:
     repo = ctx.repo
     ctx.rule("R1", "entry points take their text from root_render_func(<context>) and hand it on unchanged")
     tpl = repo.cls("environment:Template")
+    from ..normalize import norm as _n
+
+    root_ = "self.root_render_func(self.new_context(dict(*args, **kwargs)))"
     wants = {
-        "render": "self.environment.concat(self.root_render_func(ctx))",
-        "render_async": "self.environment.concat([n async for n in self.root_render_func(ctx)])",
-        "generate": "yield from self.root_render_func(ctx)",
+        "render": f"self.environment.concat({root_})",
+        "render_async": f"self.environment.concat([n async for n in {root_}])",
+        "generate": f"yield from {root_}",
         "make_module_async": "[x async for x in self.root_render_func(ctx)]",
     }
     for meth, frag in wants.items():
         fn = tpl.methods[meth]
-        ctx.check(frag in ast.unparse(fn), f"Template.{meth}", f"environment:Template.{meth}", "source of the text", f"Template.{meth} must contain `{frag}`", f"src/jinja2/environment.py:{fn.lineno}")
+        # normal form: locals naming the data, the context or the concat hook are inlined where
+        # they are used once; comprehension variables are renamed to the expected ones
+        nfn = _n(fn)
+        text = ast.unparse(nfn)
+        for comp in [c_ for c_ in ast.walk(nfn) if isinstance(c_, ast.ListComp) and len(c_.generators) == 1 and isinstance(c_.generators[0].target, ast.Name) and ast.unparse(c_.elt) == c_.generators[0].target.id]:
+            want_var = "n" if meth == "render_async" else "x"
+            text = text.replace(ast.unparse(comp), ast.unparse(comp).replace(f"[{comp.generators[0].target.id} async for {comp.generators[0].target.id} in", f"[{want_var} async for {want_var} in"))
+        ctx.check(frag in text or frag in ast.unparse(fn), f"Template.{meth}", f"environment:Template.{meth}", "source of the text", f"Template.{meth} must contain `{frag}`", f"src/jinja2/environment.py:{fn.lineno}")
     # ... and from the same data: every entry point builds its context from
     # dict(*args, **kwargs) (keywords win over a positional mapping everywhere)
     for meth in ("render", "render_async", "generate", "generate_async"):
         fn = tpl.methods[meth]
-        ncs = [c for c in astq.calls(fn) if astq.callee(c) == "self.new_context"]
+        ncs = [c for c in astq.calls(_n(fn)) if astq.callee(c) == "self.new_context"]
         okd = len(ncs) == 1 and len(ncs[0].args) == 1 and ast.unparse(ncs[0].args[0]) == "dict(*args, **kwargs)" and not ncs[0].keywords
         ctx.check(okd, f"Template.{meth}:data", f"environment:Template.{meth}", f"context data `{ast.unparse(ncs[0].args[0]) if ncs and ncs[0].args else '?'}`",
                   f"Template.{meth} must build its context as self.new_context(dict(*args, **kwargs)) like the other entry points; a different merge order makes a positional mapping override keyword arguments for this entry point only, so render / generate / stream disagree on the same call", f"src/jinja2/environment.py:{fn.lineno}")
